@@ -46,7 +46,9 @@ RULE = (
     "1-d ndarray}, a key order, and values from {short decimals, float32-exact floats, any finite float64 incl. denormals "
     "and 1e308, ints |v|<=2^53, np.int32/int64/float32/float64 scalars, per-element mixes}. Every case goes through "
     "dict, to_dataframe/from_dataframe, to_pytorch/from_pytorch, save/load csv and save/load json (minus the forms excluded "
-    "for F10/F12). G: every (form x scalar type x name x id alphabet) single-parameter container and every ordered pair of "
+    "for F10/F12). About a third of the cases with >= 2 ids are multi-step: the container is built incrementally, all forms "
+    "are produced and judged after the first j individuals at 1-2 drawn points j, then individuals keep being added to the "
+    "same object and every form is judged again at the end (class roundtrip:interleaved-conversions). G: every (form x scalar type x name x id alphabet) single-parameter container and every ordered pair of "
     "forms x scalar type x id alphabet. X: generated base container + one malformed addition of each kind. "
     "Non-trivial (R, G) = >= 2 ids, >= 1 scalar-valued and >= 1 length-n (n >= 2) parameter; distinct by the whole case. "
     "Non-trivial (X) = rejection on a non-empty base container; distinct by the whole case."
@@ -56,6 +58,7 @@ ASSUMPTIONS = [
     "Values: exact float64 equality (int 3 == 3.0) for dict/table/csv/json, float32(value) equality for the tensor form; a value that was added as an np.float32 scalar is compared at single precision in the table/csv forms (pandas keeps such a column in float32). Overflow to inf beyond the float32 range is what 'to single precision' means and is accepted.",
     "Domain restrictions (observed, not judged): >= 1 individual (an empty container has no names/shapes; to_dataframe/to_pytorch raise AttributeError on it, save refuses it as documented); integers within +-2^53 (np.int32 within its range, and within +-2^24 where np.int32 and np.float32 scalars are mixed for one parameter across individuals: pandas infers a float32 column for that pair of types); finite values only; identifiers without control characters ('\\r' and NUL break the csv form) or lone surrogates; parameter names non-empty and != 'ID' (reserved by the table layout); lists are homogeneous in python type class only where the code checks it (a list whose *first* element is valid but a later one is a str is accepted by add_individual_parameters; not generated).",
     "Rejections: LeaspyIndividualParamsInputError and an unchanged container (_indices, _individual_parameters, _parameters_shape); afterwards the repaired addition under a fresh id must be accepted. Unsupported value types generated: str, None, bool, dict, nested list, 2-d ndarray (scalar position or every list element).",
+    "A conversion must reflect the container as it is when the conversion is called: converting, adding further individuals to the same object and converting again is judged against the reference model of all individuals added so far.",
     "While EXCLUDE_F10 / EXCLUDE_F12 / EXCLUDE_CSV_FLOAT_PARSE are True the corresponding (input class x form) pairs are dropped / compared with CSV_RTOL by construction and counted under `excluded`.",
 ]
 REQUIRED_CLASSES = {  # absolute counts, about a third of what the quick tier produces
@@ -67,7 +70,7 @@ REQUIRED_CLASSES = {  # absolute counts, about a third of what the quick tier pr
     "name:source-like": 3000, "name:underscore": 600, "key-order-permuted": 1500,
     "conv:df": 5000, "conv:csv": 5000, "conv:csv-exact": 3000, "conv:json": 4000, "conv:torch": 6000,
     "reject:dup-id": 200, "reject:nonstr-id": 200, "reject:bad-type": 200, "reject:bad-shape": 200, "reject:non-dict": 200,
-    "reject:from_pytorch-length": 200, "reject:first-addition": 80, "grid": 4000,
+    "reject:from_pytorch-length": 200, "reject:first-addition": 80, "grid": 4000, "roundtrip:interleaved-conversions": 2000,
 }
 
 ALL_CONVS = ["dict", "df", "torch", "csv", "json"]
@@ -199,12 +202,15 @@ def _workdir():
     return str(env.enter_scratch())
 
 
-def build_container(case):
+def build_container(case, ip=None, model=None, start=0, stop=None):
+    """Add individuals start..stop-1 of the case to `ip` (a new container by default) and to the reference model."""
     from leaspy.io.outputs import IndividualParameters
 
-    ip = IndividualParameters()
-    model = {"ids": list(case["ids"]), "params": {}, "values": {}}
-    for id_, ind in zip(case["ids"], case["inds"]):
+    if ip is None:
+        ip = IndividualParameters()
+        model = {"ids": [], "params": {}, "values": {}}
+    stop = len(case["ids"]) if stop is None else stop
+    for id_, ind in zip(case["ids"][start:stop], case["inds"][start:stop]):
         d = {}
         for e in ind:
             built = build_value(e)
@@ -213,6 +219,7 @@ def build_container(case):
             model["params"].setdefault(e["name"], (is_scalar, len(flat)))
             model["values"][(id_, e["name"])] = flat
         ip.add_individual_parameters(id_, d)
+        model["ids"].append(id_)
     return ip, model
 
 
@@ -329,31 +336,10 @@ def check_tensors(ids_t, tensors, model):
     return None
 
 
-def run_roundtrip(col: Collector, case, sub_check="roundtrip"):
-    """All requested forms for one container. Failures are recorded per (form, oracle, input class)."""
+def _judge_forms(ip, model, convs, csv_mode, wd, fail):
+    """Every requested form of `ip` (and back) against the reference model; `fail(conv, oracle, observed, expected)`."""
     from leaspy.io.outputs import IndividualParameters as IP
 
-    convs = case.get("convs") or ALL_CONVS
-    csv_mode = case.get("csv_mode", "exact")
-    a = analyse(case)
-
-    def suffix(conv):
-        s = ""
-        if conv in ("df", "csv") and a["underscore"]:
-            s += ":underscore-name"
-        if conv == "json" and a["np_scalar"]:
-            s += ":numpy-scalar"
-        return s
-
-    def fail(conv, oracle, observed, expected):
-        col.fail(sub_check, f"{conv}:{oracle}{suffix(conv)}", case, observed=observed, expected=expected)
-
-    try:
-        ip, model = build_container(case)
-    except Exception as e:
-        col.fail(sub_check, "add:unexpected-exception:" + exc_bucket(e), case, observed=repr(e), expected="valid additions accepted")
-        return a
-    wd = _workdir()
     for conv in convs:
         if conv not in ALL_CONVS:
             raise ValueError(f"unknown form {conv}")
@@ -391,6 +377,42 @@ def run_roundtrip(col: Collector, case, sub_check="roundtrip"):
             bad = compare_container(ip, model, conv="dict")
             if bad:
                 fail(conv, "source-altered:" + bad[0], bad[1], bad[2])
+
+
+def run_roundtrip(col: Collector, case, sub_check="roundtrip"):
+    """All requested forms for one container. Failures are recorded per (form, oracle, input class)."""
+    convs = case.get("convs") or ALL_CONVS
+    csv_mode = case.get("csv_mode", "exact")
+    a = analyse(case)
+
+    def suffix(conv):
+        s = ""
+        if conv in ("df", "csv") and a["underscore"]:
+            s += ":underscore-name"
+        if conv == "json" and a["np_scalar"]:
+            s += ":numpy-scalar"
+        return s
+
+    def fail(conv, oracle, observed, expected):
+        col.fail(sub_check, f"{conv}:{oracle}{suffix(conv)}", case, observed=observed, expected=expected)
+
+    # multi-step variant: the container is built incrementally and converted at the intermediate points `stops`
+    # (after the first j individuals, judged against the reference model of those j), then extended on the SAME object
+    # and judged in full at the end
+    n = len(case["ids"])
+    stops = [j for j in (case.get("stops") or []) if 0 < j < n]
+    wd = _workdir()
+    ip = model = None
+    start = 0
+    for stop in stops + [n]:
+        try:
+            ip, model = build_container(case, ip, model, start, stop)
+        except Exception as e:
+            col.fail(sub_check, "add:unexpected-exception:" + exc_bucket(e), case, observed=repr(e), expected="valid additions accepted")
+            return a
+        start = stop
+        stage = "" if not stops else (":after-intermediate-conversions" if stop == n else ":intermediate")
+        _judge_forms(ip, model, convs, csv_mode, wd, lambda conv, oracle, obs, exp: fail(conv, oracle + stage, obs, exp))
     return a
 
 
@@ -420,6 +442,8 @@ def classes_of(case, a):
     first = [e["name"] for e in case["inds"][0]]
     if any([e["name"] for e in ind] != first for ind in case["inds"]):
         cl.append("key-order-permuted")
+    if [j for j in (case.get("stops") or []) if 0 < j < len(case["ids"])]:
+        cl.append("roundtrip:interleaved-conversions")
     for c in case.get("convs") or ALL_CONVS:
         cl.append("conv:" + c)
     if "csv" in (case.get("convs") or ALL_CONVS) and case.get("csv_mode", "exact") == "exact":
@@ -598,8 +622,21 @@ def container(draw, *, max_ids=10, min_ids=1, id_classes=None, allow_underscore=
     return {"ids": ids, "id_class": id_class, "inds": inds}
 
 
+_D3 = st.integers(0, 2)
+
+
+@st.composite
+def _roundtrip_case(draw, max_ids):
+    case = draw(_cached(("container", max_ids), lambda: container(max_ids=max_ids)))
+    n = len(case["ids"])
+    if n >= 2 and draw(_D3) == 0:  # about a third: conversions interleaved with additions on the same object
+        pts = _cached(("stops", n), lambda: st.lists(st.integers(1, n - 1), min_size=1, max_size=2, unique=True))
+        case["stops"] = sorted(draw(pts))
+    return plan(case)
+
+
 def roundtrip_strategy(max_ids=10):
-    return container(max_ids=max_ids).map(plan)
+    return _roundtrip_case(max_ids)
 
 
 def shard_roundtrip(seed: int, n_examples: int, shard: int = 0, max_ids: int = 10):
@@ -655,6 +692,8 @@ def shard_grid(part: int, n_parts: int, shard: int = 0):
     for i, case in enumerate(grid_cases()):
         if i % n_parts != part:
             continue
+        if i % 3 == 0:
+            case["stops"] = [1, 2] if i % 2 else [2]
         case = plan(case)
         a = run_roundtrip(col, case)
         for x in case["excluded"]:
@@ -884,10 +923,17 @@ REPRO_F11 = {  # fixed by e72858f; bucket was "csv:unexpected-exception:LeaspyIn
     "ids": ["NA", "null"], "inds": [[{"name": "xi", "form": "list", "elems": [["float", 0.5]]}]] * 2, "convs": ["csv"]}
 
 
+REPRO_STALE_TENSOR = {  # seeded regression (tensor cache not invalidated by a later addition); bucket on that tree:
+    # "torch:tensor-layout:shape-dtype:after-intermediate-conversions"
+    "ids": ["a", "b"], "stops": [1], "convs": ["torch"],
+    "inds": [[{"name": "xi", "form": "list", "elems": [["float", 0.5]]}], [{"name": "xi", "form": "list", "elems": [["float", 1.5]]}]]}
+
+
 def reproducers():
     """Run the dedicated reproducers; returns {name: [buckets]} (used by the author's own sanity runs, not by the tiers)."""
     out = {}
-    for name, inp in (("F9", REPRO_F9), ("F10", REPRO_F10), ("F11", REPRO_F11), ("F12", REPRO_F12), ("csv-float", REPRO_CSV_FLOAT)):
+    for name, inp in (("F9", REPRO_F9), ("F10", REPRO_F10), ("F11", REPRO_F11), ("F12", REPRO_F12), ("csv-float", REPRO_CSV_FLOAT),
+                      ("stale-tensor", REPRO_STALE_TENSOR)):
         out[name] = [f["bucket"] for f in replay("roundtrip", copy.deepcopy(inp))]
     return out
 
